@@ -89,6 +89,28 @@ Theorem C03_header_visible : forall fold cookie_ord hs,
 Proof. exact header_visible_full. Qed.
 Print Assumptions C03_header_visible.
 
+(* ParseCookies hands back every pair of a Cookie header built from pairs that satisfy the
+   guard [cookie_ok] (non-empty name without ';' '=' and without white space at its ends, value
+   without ';' and without trailing white space), without any URL decoding ... *)
+Theorem C03_cookie_roundtrip_partial : forall l,
+  forallb cookie_ok l = true -> cookie_pairs (enc_cookie l) = l.
+Proof. exact cookie_roundtrip. Qed.
+Print Assumptions C03_cookie_roundtrip_partial.
+
+Example C03_cookie_guard_example :
+  forallb cookie_ok [(str "sid"%string, str "a b=c%41"%string); (str "x"%string, []);
+                     (str "sid"%string, str " lead"%string)] = true.
+Proof. reflexivity. Qed.
+
+(* ... and REQUEST_COOKIES holds exactly these pairs after AddRequestHeader("Cookie", ...) *)
+Theorem C03_cookie_visible_partial : forall fold cookie_ord l,
+  forallb cookie_ok l = true ->
+  Permutation (cookie_ord (enc_cookie l)) (parse_cookies (enc_cookie l)) ->
+  let t := add_request_header fold cookie_ord txv_empty (str "Cookie"%string) (enc_cookie l) in
+  Permutation (cm_find_all (v_cookies t)) l.
+Proof. exact cookie_header_visible. Qed.
+Print Assumptions C03_cookie_visible_partial.
+
 (* a urlencoded body (Content-Type: application/x-www-form-urlencoded, body access on):
    ARGS_POST holds exactly the pairs sent (all case variants, repeated names: the F13 repair),
    REQUEST_BODY is the body, no error *)
@@ -101,6 +123,37 @@ Theorem C03_urlencoded_visible : forall fold cookie_ord cfg o l,
 Proof. exact urlencoded_visible. Qed.
 Print Assumptions C03_urlencoded_visible.
 
+(* the same for every Content-Type value AddRequestHeader accepts: the media type in any letter
+   case, alone or followed by ';' and parameters (repair 70bcddc of a finding of this check) *)
+Theorem C03_urlencoded_ct_parameter_visible : forall fold cookie_ord cfg o l ct,
+  ct_is_urlencoded ct = true ->
+  wf_pairs l -> bc_access cfg = true ->
+  Permutation (bo_post_ord o) (parse_query (enc_urlencoded l) 38) ->
+  let t := process_request_body fold cfg o (urlencoded_tx_ct fold cookie_ord ct) (enc_urlencoded l) in
+  Permutation (cm_find_all (v_args_post t)) l /\
+  v_request_body t = enc_urlencoded l /\ v_reqbody_error t = false.
+Proof. exact urlencoded_visible_ct. Qed.
+Print Assumptions C03_urlencoded_ct_parameter_visible.
+
+Example C03_ct_guard_example :
+  ct_is_urlencoded (str "Application/X-WWW-Form-Urlencoded; charset=UTF-8"%string) = true /\
+  ct_is_urlencoded (str "application/x-www-form-urlencoded;"%string) = true /\
+  ct_is_urlencoded (str "application/x-www-form-urlencodedx"%string) = false.
+Proof. vm_compute. auto. Qed.
+
+(* REFUTED (residual, reported): optional white space before the ';' — legal, accepted by
+   mime.ParseMediaType — still leaves the body unparsed: fields in no variable, REQUEST_BODY
+   empty, no error variable *)
+Theorem C03_urlencoded_ct_ows_refuted :
+  exists (ct : bytes) (l : list kv), wf_pairs l /\ l <> [] /\
+  is_prefix dc_ct_urlencoded (lower_ascii ct) = true /\
+  forall fold cookie_ord o,
+    let t0 := add_request_header fold cookie_ord txv_empty (str "Content-Type"%string) ct in
+    let t := process_request_body fold (mk_bcfg true false 1024) o t0 (enc_urlencoded l) in
+    cm_find_all (v_args_post t) = [] /\ v_request_body t = [] /\ v_reqbody_error t = false.
+Proof. exact urlencoded_ct_ows_refuted. Qed.
+Print Assumptions C03_urlencoded_ct_ows_refuted.
+
 (* JSON: when no two flattened paths coincide after case folding, every assignment of the
    flattening is in ARGS_POST under every iteration order *)
 Theorem C03_json_visible_partial : forall fold w ord,
@@ -108,6 +161,14 @@ Theorem C03_json_visible_partial : forall fold w ord,
   Permutation (cm_find_all (json_apply fold [] ord)) w.
 Proof. exact json_visible_partial. Qed.
 Print Assumptions C03_json_visible_partial.
+
+(* hence every scalar leaf of a JSON object / array is in ARGS_POST under its dotted path *)
+Theorem C03_json_leaves_visible_partial : forall fold t depth w ord,
+  dc_leaf t = None -> read_json t depth = (w, false) ->
+  json_unambiguous fold w = true -> Permutation ord (json_res w) ->
+  forall leaf, In leaf (json_leaves t (str "json"%string)) -> In leaf (cm_find_all (json_apply fold [] ord)).
+Proof. exact json_leaves_visible. Qed.
+Print Assumptions C03_json_leaves_visible_partial.
 
 (* the guard is satisfiable by a non-trivial body: {"a":"x","B":[1,null],"c":{"d":true}} *)
 Example C03_json_guard_example :
